@@ -135,6 +135,39 @@ def tagger_kind(tg):
     return "other"
 
 
+BOUND_RECORDS = []
+_PROBED = []
+
+
+def install_bound_probe():
+    """Replace the module-level bindings of bounding_potential_warning in the event-handler modules by a recorder
+    (handler object, bounding rate, true rate).  Idempotent; forked workers inherit it."""
+    import importlib
+    import sys
+    if _PROBED:
+        return
+    mods = ["jellyfysh.event_handler.abstracts.event_handler_with_bounding_potential",
+            "jellyfysh.event_handler.fixed_separations_event_handler_with_piecewise_constant_bounding_potential",
+            "jellyfysh.event_handler.two_composite_object_summed_bounding_potential_event_handler",
+            "jellyfysh.event_handler.two_leaf_unit_event_handler_with_piecewise_constant_bounding_potential",
+            "jellyfysh.event_handler.root_unit_active_two_composite_object_summed_bounding_potential_event_handler",
+            "jellyfysh.event_handler.composite_object_cell_veto_event_handler",
+            "jellyfysh.event_handler.two_composite_object_cell_bounding_potential_event_handler"]
+
+    def probe(event_handler_name, bounding_derivative, real_derivative):
+        h = sys._getframe(1).f_locals.get("self")
+        bp = type(getattr(h, "_bounding_potential", None)).__name__
+        BOUND_RECORDS.append((event_handler_name, bp, bounding_derivative, real_derivative))
+    for m in mods:
+        try:
+            mod = importlib.import_module(m)
+        except Exception:
+            continue
+        if hasattr(mod, "bounding_potential_warning"):
+            mod.bounding_potential_warning = probe
+            _PROBED.append(m)
+
+
 class Execution:
     """One monitored run of a real mediator."""
 
@@ -174,6 +207,9 @@ class Execution:
         self.initial = snapshot(self.sh)
         self.tagger_of = self.act._event_handler_tagger_dictionary
         self.start_handler = self.act._start_of_run_event_handler
+        if "C04" in self.mon:
+            install_bound_probe()
+            del BOUND_RECORDS[:]
         self.ctx = None
         self._snap = None
         self.ordinals = collections.Counter()
@@ -345,6 +381,8 @@ class Execution:
                    % (e, rel, where.lineno, where.name, self.legs, len(self.commits)))
         if "C17" in self.mon:
             self.check_c17_end()
+        if "C04" in self.mon:
+            self.check_c04_end()
         return self
 
     # ---- per leg ----------------------------------------------------------------------------------------------------
@@ -664,6 +702,21 @@ class Execution:
             if any(abs(b) > 1e-9 * max(1.0, L[d]) for d, b in enumerate(bary)):
                 self.V("C12:barycentre", "composite object %d: stored position advanced to the event time is off the "
                        "barycentre of its point masses by %r after %s" % (r, bary, name))
+
+    # ---- C04 --------------------------------------------------------------------------------------------------------
+    def check_c04_end(self):
+        """Every thinned event whose bound is the nearest-image 1/r bound: true rate <= bounding rate."""
+        n = 0
+        for name, bp, bound, real in BOUND_RECORDS:
+            if bp != "InversePowerCoulombBoundingPotential":
+                continue
+            n += 1
+            if real > 0 and real > bound * (1 + 1e-9) + 1e-300:
+                self.V("C04:bound-exceeded", "%s: true event rate %r exceeds the 1/r bounding rate %r at a thinned "
+                       "event of the run" % (name, real, bound))
+                break
+        self.stats["c04_thinned_events"] += n
+        del BOUND_RECORDS[:]
 
     # ---- C17 --------------------------------------------------------------------------------------------------------
     def check_c17_end(self):
